@@ -109,6 +109,26 @@ Theorem C13_split : forall bps a b its1 its2 sp sp1 n1 sp2 r2 n2,
 Proof. exact limit_split. Qed.
 Print Assumptions C13_split.
 
+(* General form of pause-and-resume: a call that pauses on its tripwire followed by a call with any
+   tripwire T2 (one that does not read the observer: all tripwires of the API are such) equals
+   ONE call whose tripwire is T1 for the first n1 instructions and T2 afterwards. *)
+Theorem C13_resume_after_tripwire : forall bps T1 T2 its1 its2 sp sp1 n1 sp2 r2 n2,
+  trip_ignores_obs T2 ->
+  run_while bps T1 its1 sp = (sp1, ROk, n1) -> snd sp1 = PTripwire ->
+  run_while bps T2 its2 sp1 = (sp2, r2, n2) ->
+  exists sp', run_while bps (trip_seq n1 T1 T2) (firstn n1 its1 ++ its2) sp = (sp', r2, (n1 + n2)%nat) /\
+    snd sp' = snd sp2 /\ same_but_obs (fst sp') (fst sp2).
+Proof. exact resume_after_tripwire. Qed.
+Print Assumptions C13_resume_after_tripwire.
+
+Theorem C13_api_tripwires_ignore_observer :
+  trip_ignores_obs trip_true /\ (forall i m, trip_ignores_obs (trip_limit i m)) /\
+  (forall d, trip_ignores_obs (trip_over d)) /\ (forall d, trip_ignores_obs (trip_out d)).
+Proof.
+  exact (conj trip_true_ignores_obs (conj trip_limit_ignores_obs (conj trip_over_ignores_obs trip_out_ignores_obs))).
+Qed.
+Print Assumptions C13_api_tripwires_ignore_observer.
+
 (* the access observer never influences a run *)
 Theorem C13_observer_irrelevant : forall bps T, trip_ignores_obs T -> forall its k s o s' st n,
   run_loop bps T k its s = (s', st, n) ->
